@@ -345,13 +345,16 @@ func GenRefCase(s Src) *RefCase {
 
 	// a reference variable to the root is the base of every access path (the checker tracks
 	// it, so it is not used after a relocation of the root)
+	rootExpr := rootRef
 	g.emit("let rr = %s", rootRef)
 	rootRef = "rr"
 
 	// target and reference
 	nodes := root.all(nil)
 	target := nodes[s.Intn(len(nodes))]
-	if chance(s, 1, 3) { // prefer deep targets
+	if chance(s, 1, 4) {
+		target = root
+	} else if chance(s, 1, 3) { // prefer deep targets
 		for _, x := range nodes {
 			if x.depth() > target.depth() {
 				target = x
@@ -369,6 +372,13 @@ func GenRefCase(s Src) *RefCase {
 	}
 	toAtt := target.att >= 0 && chance(s, 1, 3) && !(c.Holder == "storage" && target == root)
 	expr := g.pathExpr(rootRef, target, true)
+	if target == root && chance(s, 1, 2) {
+		expr = rootExpr // a second reference object to the root instead of rr itself
+	}
+	if chance(s, 1, 2) {
+		// another reference to the same node, taken first: every reference must be invalidated, not only the first
+		g.emit("let decoy = C.id(%s)", g.pathExpr(rootRef, target, true))
+	}
 	var use string // expression denoting the routed reference
 	routes := []string{"fun", "struct", "array", "dictref", "optref"}
 	c.Route = routes[s.Intn(len(routes))]
@@ -485,7 +495,7 @@ func (g *refGen) relocate(c *RefCase, root, target *rnode, rootRef string) bool 
 	nodes := root.all(nil)
 	// choose the victim by relation
 	var victim *rnode
-	rel := []string{"self", "ancestor", "descendant", "other", "none"}[weighted(s, []int{4, 4, 2, 3, 2})]
+	rel := []string{"self", "ancestor", "descendant", "other", "none"}[weighted(s, []int{4, 5, 2, 2, 1})]
 	pick := func(f func(*rnode) bool) *rnode {
 		var c []*rnode
 		for _, x := range nodes {
@@ -503,6 +513,9 @@ func (g *refGen) relocate(c *RefCase, root, target *rnode, rootRef string) bool 
 		victim = target
 	case "ancestor":
 		victim = pick(func(x *rnode) bool { return x != target && x.isAncestorOrSelf(target) })
+		if victim != nil && chance(s, 1, 2) {
+			victim = root
+		}
 	case "descendant":
 		victim = pick(func(x *rnode) bool { return x != target && target.isAncestorOrSelf(x) })
 	case "other":
